@@ -69,6 +69,12 @@ CLAIMS["C06"] = dict(
     note="Proved: name layer. Oracle only: that each consuming position generates the constraint (constraint generation and the unifier are not modelled).",
     technique="Lean 4 proof over name-lattice model + exhaustive verdict matrix oracle",
     design="§5 C06")
+CLAIMS["C12"] = dict(
+    text="Unbounded Lean theorem class_body_order_perm on the model of extract_class's member ordering: for every well-formed class body and every iteration order of the HashMap the members are stored in, the emitted order is the same, because the (position, rank) sort key is injective (keys_distinct); the position offsets and tie ranks are regenerated from class.rs on every run (without the tie ranks the proof fails). Order independence of the name lattice is theorem C20.order_indep on the model tied by C20's correspondence. "
+         "The member-order model is tied to the code by comparing its predicted order with the emitted class for generated classes. The unifier's order sensitivity is not modelled: verdict and bytes are compared over repetitions in one process (fresh hash seeds per map), after shuffled other workloads, across processes and under concurrency.",
+    note="Proved: class member order, name-lattice order independence. Explored, not proved: determinism of unification and of context building. The wording of diagnostics is outside the property (only the verdict is compared on rejection).",
+    technique="Lean 4 proof (permutation invariance via injective sort key, regenerated constants) + correspondence + repetition oracle",
+    design="§5 C12")
 NOT_YET = {}
 ALL = ["C%02d" % i for i in range(1, 21)]
 
